@@ -39,12 +39,15 @@ ID = "C15"
 LEVEL = "exploration"
 RULE = (
     "iri: URLs = (scheme x userinfo x host x port) full product with tails of <=1 atom, plus every "
-    "path, query and fragment string of <=3 atoms (thorough: <=4 over the core atoms) over a 30-atom "
+    "path, query and fragment string of <=3 atoms (thorough: <=4 over 24 atoms) over a 30-atom "
     "alphabet of raw Unicode, valid / invalid / reserved / lower-case / split percent-escapes on a fixed "
-    "authority, path x query x fragment cross products at depth 1 (thorough 2), userinfo strings <=2 "
-    "(thorough 3) and scheme-less references; env: paths '/'+<=3 atoms x query mappings <=2 pairs x 5 "
-    "base URLs through EnvironBuilder -> Request; disp: all 2^6 mount tables x every path of <=4 "
-    "segments (thorough 5) x 2 script names. A case is one input; non-trivial = the conversion changed "
+    "authority, uri_to_iri also applied to the mixed input directly, path x query x fragment cross products at depth 1 (thorough 2), userinfo strings <=2 "
+    "(thorough 3) and scheme-less references; env: paths '/'+<=3 atoms x query mappings <=2 pairs x 7 "
+    "base URLs through EnvironBuilder -> Request (path, args, host, root_path, script_root, full_path, url, base_url, "
+    "root_url, host_url), werkzeug.wsgi.get_current_url with all 8 flag combinations and trusted / untrusted host "
+    "lists, EnvironBuilder.from_environ round trip, query given as mapping / string / inside the path; host: raw "
+    "environs scheme x Host header x SERVER_NAME x SERVER_PORT; disp: all 2^8 mount tables (incl. '' and '/') x "
+    "every path of <=4 segments (thorough 5) x 3 script names (one: keys absent). A case is one input; non-trivial = the conversion changed "
     "the text (iri), the input contains a non-ASCII or reserved character (env), or a mount (not the "
     "default app) was selected with a non-empty remaining path (disp)."
 )
@@ -61,6 +64,7 @@ from werkzeug.middleware.dispatcher import DispatcherMiddleware  # noqa: E402
 from werkzeug.test import EnvironBuilder  # noqa: E402
 from werkzeug.urls import iri_to_uri, uri_to_iri  # noqa: E402
 from werkzeug.wrappers import Request  # noqa: E402
+from werkzeug.wsgi import get_current_url as wsgi_get_current_url  # noqa: E402
 
 HEX = "0123456789abcdefABCDEF"
 
@@ -115,6 +119,7 @@ def meaning(url: str) -> dict:
 CORE = ["a", "é", "%C3%A9", "%FF", "%2F", "%3F", "%23", "%25", "%26", "%3D", " ", ";", "+", "/", "%zz", "%2f"]
 EXTRA = ["%2B", "%", "41", "&", "=", "%C3", "%A9", "%20", "%00", "\x7f", "𝄞", "%f0%9d%84%9e", ":", "@"]
 ALPHA = CORE + EXTRA
+FUSION = ["%", "a", "%41", "4", "%25", "%2", "%C3%A9"]
 # atoms only legal in some components ('?' and '#' would start the next component)
 QUERY_ONLY = ["?"]
 FRAG_ONLY = ["?", "#"]
@@ -131,6 +136,9 @@ HOSTS = [
     ("[2001:db8::1]", "2001:db8::1", "2001:db8::1"),
     ("☃.net", "xn--n3h.net", "☃.net"),
     ("localhost", "localhost", "localhost"),
+    ("xn--0.example", "xn--0.example", "xn--0.example"),
+    ("bücher.xn--0.example", "xn--bcher-kva.xn--0.example", "bücher.xn--0.example"),
+    ("xn--n3h.xn--bcher-kva.example", "xn--n3h.xn--bcher-kva.example", "☃.bücher.example"),
 ]
 USERS = ["", "u@", "u:p@", "ü:p%40x@", "u%3Av:p%2Fq@", "%zz:é@"]
 PORTS = ["", ":80", ":8080", ":443"]
@@ -157,12 +165,18 @@ def iri_cases(tier):
     for s in gen.strings(ALPHA + FRAG_ONLY, d_big):
         yield ("fragment", "http://example.com/p#" + s, fixed)
     if T:
-        seen3 = None  # depth 4 over the core alphabet; depth <=3 strings are re-visited (cheap, harmless)
-        del seen3
-        for s in gen.strings(CORE, 4, 4):
+        # depth 4 over the first 24 atoms (all CORE atoms and 8 of EXTRA)
+        for s in gen.strings(ALPHA[:24], 4, 4):
             yield ("path", "http://example.com/" + s, fixed)
             yield ("query", "http://example.com/p?" + s, fixed)
             yield ("fragment", "http://example.com/p#" + s, fixed)
+    # escapes next to a dangling '%': unquoting one must not complete the other
+    for s in gen.strings(FUSION, 4):
+        yield ("fusion", "http://example.com/" + s, fixed)
+        yield ("fusion", "http://example.com/p?" + s, fixed)
+        yield ("fusion", "http://example.com/p#" + s, fixed)
+        if s:   # an empty userinfo is dropped, which is normalisation
+            yield ("fusion", f"http://{s}@example.com/", fixed)
     d = 2 if T else 1
     comp = list(gen.strings(CORE, d))
     for p in comp:
@@ -221,6 +235,19 @@ def check_iri(x: str, row):
         for comp in ("scheme", "port", "path", "query", "fragment", "user", "password", "has_netloc"):
             if m[comp] != mx[comp]:
                 fails.append((f"iri:meaning-changed:{comp}:{name}", (comp, mx[comp], m[comp])))
+    # uri_to_iri applied directly to the (mixed) input: same meaning (it may still hold raw unsafe text,
+    # so no fixpoint is demanded of it)
+    try:
+        i0 = uri_to_iri(x)
+    except Exception as e:  # noqa: BLE001
+        return fails + [("iri:exception:uri_to_iri(mixed)", repr(e))], obs
+    obs["i0"] = i0
+    m0 = meaning(i0)
+    for comp in ("scheme", "port", "path", "query", "fragment", "user", "password", "has_netloc"):
+        if m0[comp] != mx[comp]:
+            fails.append((f"iri:meaning-changed:{comp}:iri-direct", (comp, mx[comp], m0[comp])))
+    if row is not None and m0["host"] != row[2]:
+        fails.append(("iri:host:iri-direct", (row, m0["host"])))
     if row is not None:
         if mu["host"] != row[1] or mu2["host"] != row[1]:
             fails.append(("iri:host:uri", (row, mu["host"], mu2["host"])))
@@ -281,14 +308,35 @@ def grouped(pairs):
     return [(k, v) for k, vs in d.items() for v in vs]
 
 
+WSGI_FLAGS = [  # (kwargs, which of the four URL kinds the result must be)
+    ({}, "url"),
+    ({"strip_querystring": True}, "base_url"),
+    ({"root_only": True}, "root_url"),
+    ({"root_only": True, "strip_querystring": True}, "root_url"),
+    ({"host_only": True}, "host_url"),
+    ({"host_only": True, "strip_querystring": True}, "host_url"),
+    ({"host_only": True, "root_only": True}, "host_url"),
+    ({"host_only": True, "root_only": True, "strip_querystring": True}, "host_url"),
+]
+ENV_KEYS = ("PATH_INFO", "SCRIPT_NAME", "QUERY_STRING", "HTTP_HOST", "wsgi.url_scheme", "SERVER_NAME", "SERVER_PORT")
+
+
+def flag_label(kw) -> str:
+    return "+".join(sorted(kw)) or "plain"
+
+
 def check_env(path: str, query, b: int):
+    from urllib.parse import quote as _q
+
+    from werkzeug.datastructures import MultiDict
+    from werkzeug.exceptions import SecurityError
+
     base, scheme, (host_a, host_u), root = BASES[b]
     fails = []
+    qs = "&".join(quote_plus(k) + "=" + quote_plus(v) for k, v in (query or ()))
     try:
         kw = {}
         if query is not None:
-            from werkzeug.datastructures import MultiDict
-
             kw["query_string"] = MultiDict(list(query))
         builder = EnvironBuilder(path=path, base_url=base, **kw)
         try:
@@ -301,6 +349,8 @@ def check_env(path: str, query, b: int):
             "args": list(req.args.items(multi=True)),
             "host": req.host,
             "root_path": req.root_path,
+            "script_root": req.script_root,
+            "full_path": req.full_path,
             "url": req.url,
             "base_url": req.base_url,
             "root_url": req.root_url,
@@ -319,10 +369,15 @@ def check_env(path: str, query, b: int):
         fails.append(("env:host", ((host_a, host_u), got["host"])))
     if got["root_path"] != root:
         fails.append(("env:root_path", (root, got["root_path"])))
+    if got["script_root"] != root:
+        fails.append(("env:script_root", (root, got["script_root"])))
     if got["scheme"] != scheme:
         fails.append(("env:scheme", (scheme, got["scheme"])))
+    fp = got["full_path"]
+    if not (isinstance(fp, str) and fp[: len(exp_path) + 1] == exp_path + "?"
+            and canon(fp[len(exp_path) + 1:], "&=+") == canon(qs, "&=+")):
+        fails.append(("env:full_path", (exp_path + "?" + qs, fp)))
     # reconstructed URLs: compare meanings with a URL assembled by the harness
-    qs = "&".join(quote_plus(k) + "=" + quote_plus(v) for k, v in (query or ()))
     hostname_u = urlsplit("//" + host_u).hostname
     hostname_a = urlsplit("//" + host_a).hostname
     port = urlsplit("//" + host_a).port
@@ -332,16 +387,16 @@ def check_env(path: str, query, b: int):
         "root_url": (root + "/", ""),
         "host_url": ("/", ""),
     }
-    for attr, (p, q) in want.items():
+
+    def judge(label, url, kind):
+        p, q = want[kind]
         try:
-            m = meaning(got[attr])
+            m = meaning(url)
         except Exception as e:  # noqa: BLE001
-            fails.append((f"env:{attr}:unparseable", repr(e)))
-            continue
+            fails.append((f"env:{label}:unparseable", repr(e)))
+            return
         # the harness path/query are plain text (no escapes): their canonical form is computed on the
         # fully quoted text so that '%' and reserved characters in the *data* are data
-        from urllib.parse import quote as _q
-
         exp = {
             "scheme": scheme,
             "port": port,
@@ -351,21 +406,153 @@ def check_env(path: str, query, b: int):
         }
         for comp, val in exp.items():
             if m[comp] != val:
-                fails.append((f"env:{attr}:{comp}", (val, m[comp], got[attr])))
+                fails.append((f"env:{label}:{comp}", (val, m[comp], url)))
         if m["host"] not in (hostname_a, hostname_u):
-            fails.append((f"env:{attr}:host", ((hostname_a, hostname_u), m["host"], got[attr])))
+            fails.append((f"env:{label}:host", ((hostname_a, hostname_u), m["host"], url)))
+
+    for attr in want:
+        judge(attr, got[attr], attr)
+    # the same reconstruction through werkzeug.wsgi.get_current_url(environ, ...): every flag combination
+    bare_host = host_a.rsplit(":", 1)[0] if not host_a.endswith("]") else host_a
+    for kwf, kind in WSGI_FLAGS:
+        label = "wsgi[" + flag_label(kwf) + "]"
+        try:
+            u = wsgi_get_current_url(env, **kwf)
+            u2 = wsgi_get_current_url(env, trusted_hosts=[bare_host], **kwf)
+        except Exception as e:  # noqa: BLE001
+            fails.append((f"env:{label}:exception", repr(e)))
+            continue
+        got[label] = u
+        judge(label, u, kind)
+        if u2 != u:
+            fails.append((f"env:{label}:trusted-host-changes-url", (u, u2)))
+        try:
+            u3 = wsgi_get_current_url(env, trusted_hosts=["other.invalid"], **kwf)
+            fails.append((f"env:{label}:untrusted-host-accepted", u3))
+        except SecurityError:
+            pass
+        except Exception as e:  # noqa: BLE001
+            fails.append((f"env:{label}:exception", repr(e)))
+    # environ -> builder -> environ
+    try:
+        b2 = EnvironBuilder.from_environ(env)
+        try:
+            env2 = b2.get_environ()
+        finally:
+            b2.close()
+        d = {k: (env.get(k), env2.get(k)) for k in ENV_KEYS if env.get(k) != env2.get(k)}
+        if d:
+            fails.append(("env:from_environ", d))
+    except Exception as e:  # noqa: BLE001
+        fails.append(("env:from_environ:exception", repr(e)))
+    # the query handed over inside the path / as a string instead of a mapping
+    if query is not None:
+        forms = [("path?query", {"path": path + "?" + qs}), ("query-string", {"path": path, "query_string": qs})]
+        if not any(c in k + v for k, v in query for c in " &=+%#;?"):
+            # the query as IRI text (raw non-ASCII): QUERY_STRING then carries tunnelled UTF-8 bytes
+            forms.append(("query-iri", {"path": path, "query_string": "&".join(f"{k}={v}" for k, v in query)}))
+        for form, kw2 in forms:
+            try:
+                b3 = EnvironBuilder(base_url=base, **kw2)
+                try:
+                    env3 = b3.get_environ()
+                finally:
+                    b3.close()
+                r3 = Request(env3)
+                a3 = list(r3.args.items(multi=True))
+                if a3 != exp_args or r3.path != exp_path or env3["PATH_INFO"] != env["PATH_INFO"]:
+                    fails.append((f"env:{form}", (exp_args, a3, r3.path)))
+                else:
+                    try:
+                        m3 = meaning(r3.url)["query"]
+                    except Exception as e:  # noqa: BLE001
+                        m3 = repr(e)
+                    if m3 != canon(qs, "&=+"):
+                        fails.append((f"env:{form}:url", (qs, r3.url)))
+                    if form == "query-iri":
+                        try:
+                            b4 = EnvironBuilder.from_environ(env3)
+                            try:
+                                env4 = b4.get_environ()
+                            finally:
+                                b4.close()
+                            if env4["QUERY_STRING"] != env3["QUERY_STRING"]:
+                                fails.append((f"env:{form}:from_environ", (env3["QUERY_STRING"], env4["QUERY_STRING"])))
+                        except Exception as e:  # noqa: BLE001
+                            if not any(s == "env:from_environ:exception" for s, _ in fails):
+                                fails.append(("env:from_environ:exception", repr(e)))
+            except Exception as e:  # noqa: BLE001
+                fails.append((f"env:{form}:exception", repr(e)))
+    return fails, got
+
+
+# ------------------------------------------------------------------ host from a raw environ
+
+H_SCHEMES = ["http", "https", "ws", "wss"]
+H_HEADERS = [None, "example.com", "example.com:80", "example.com:443", "example.com:8080", "[::1]", "[::1]:80",
+             "[::1]:443", "[::1]:8443", "xn--bcher-kva.example:80", "EXAMPLE.com"]
+H_SERVERS = ["srv.example", "::1", "[::1]", "127.0.0.1"]
+H_PORTS = ["80", "443", "8080"]
+
+
+def host_cases():
+    return itertools.product(H_SCHEMES, H_HEADERS, H_SERVERS, H_PORTS)
+
+
+def ref_host(scheme, header, server, port):
+    """The authority the client addressed: the Host header if there is one, else the server's own name and port
+    (an IPv6 address in brackets); the scheme's default port is not shown."""
+    if header is not None:
+        host, _, p = header.rpartition(":") if not header.endswith("]") and ":" in header else (header, "", "")
+        if host == "":
+            host, p = header, ""
+    else:
+        host = server if server.startswith("[") or ":" not in server else f"[{server}]"
+        p = port
+    default = {"http": "80", "ws": "80", "https": "443", "wss": "443"}[scheme]
+    return host if p in ("", default) else f"{host}:{p}"
+
+
+def check_host(scheme, header, server, port):
+    env = {"REQUEST_METHOD": "GET", "wsgi.url_scheme": scheme, "SERVER_NAME": server, "SERVER_PORT": port,
+           "SCRIPT_NAME": "", "PATH_INFO": "/", "QUERY_STRING": ""}
+    if header is not None:
+        env["HTTP_HOST"] = header
+    try:
+        req = Request(env)
+        got = {"host": req.host, "host_url": req.host_url, "wsgi": wsgi_get_current_url(env, host_only=True)}
+    except Exception as e:  # noqa: BLE001
+        return [("host:exception", repr(e))], {}
+    want = ref_host(scheme, header, server, port)
+    fails = []
+    if got["host"] != want:
+        fails.append(("host:request.host", (want, got["host"])))
+    wp = urlsplit("//" + want)
+    for k in ("host_url", "wsgi"):
+        try:
+            m = urlsplit(got[k])
+            ok = (m.scheme == scheme and m.port == wp.port and m.path == "/"
+                  and (m.hostname or "").encode("idna") == (wp.hostname or "").encode("idna"))
+        except Exception:  # noqa: BLE001
+            ok = False
+        if not ok:
+            fails.append(("host:" + k, (want, got[k])))
     return fails, got
 
 
 # ------------------------------------------------------------------ dispatcher space
 
-MOUNTS = ["/a", "/a/b", "/ab", "/a/b/c", "/a/", "/é"]
+MOUNTS = ["/a", "/a/b", "/ab", "/a/b/c", "/a/", "/é", "", "/"]
 SEGS = ["a", "b", "ab", "c", "", "é"]
-SCRIPTS = ["", "/root"]
+SCRIPTS = ["", "/root", None]          # None: the environ has no SCRIPT_NAME key (and no PATH_INFO key if empty)
+
+
+RAW_SEGS = ["\udcff", "\udcc0\udcaf", "é\udcc3"]   # lone surrogates stand for raw bytes that are not valid UTF-8
 
 
 def dance(s: str) -> str:
-    return s.encode("utf-8").decode("latin-1")
+    """Text -> the latin-1 tunnelled form a WSGI server puts into the environ (raw bytes via surrogateescape)."""
+    return s.encode("utf-8", "surrogateescape").decode("latin-1")
 
 
 def disp_paths(tier):
@@ -373,6 +560,11 @@ def disp_paths(tier):
     for n in range(1, (5 if tier == "thorough" else 4) + 1):
         for t in itertools.product(SEGS, repeat=n):
             yield "/" + "/".join(t)
+    # raw PATH_INFO bytes that are not valid UTF-8 (the dispatcher works on the environ strings as they are)
+    for n in range(1, (4 if tier == "thorough" else 3) + 1):
+        for t in itertools.product(SEGS + RAW_SEGS, repeat=n):
+            if any(x in RAW_SEGS for x in t):
+                yield "/" + "/".join(t)
 
 
 def ref_mount(mounts, path):
@@ -396,7 +588,12 @@ def check_disp(mounts, path: str, script: str):
 
     try:
         d = DispatcherMiddleware(mk(None), {dance(m): mk(m) for m in mounts})
-        env = {"SCRIPT_NAME": dance(script), "PATH_INFO": dance(path), "REQUEST_METHOD": "GET"}
+        env = {"REQUEST_METHOD": "GET"}
+        if script is not None:
+            env["SCRIPT_NAME"] = dance(script)
+        if script is not None or path:
+            env["PATH_INFO"] = dance(path)
+        script = script or ""
         d(env, lambda *a, **k: None)
     except Exception as e:  # noqa: BLE001
         return [("disp:exception", repr(e))], {}
@@ -417,7 +614,7 @@ def check_disp(mounts, path: str, script: str):
 
 # ------------------------------------------------------------------ units
 
-NSHARD = {"iri": 64, "env": 48, "disp": 16}
+NSHARD = {"iri": 64, "env": 64, "disp": 24, "host": 1}
 
 
 def units(tier):
@@ -468,6 +665,17 @@ def run_unit(unit, R, tier):
             for sig, detail in fails:
                 R.violation(sig, {"kind": "env", "sig": sig, "path": path, "query": q, "base": b,
                                   "base_url": BASES[b][0], "detail": detail, "got": got})
+    elif kind == "host":
+        for case in host_cases():
+            R.ev()
+            R.count("host_cases")
+            fails, got = check_host(*case)
+            R.use("host:with-header" if case[1] is not None else "host:from-server")
+            if got and got.get("host") != (case[1] or case[2]):
+                R.nontrivial(case)
+            R.outcome(("host", got.get("host") == case[1], bool(fails)))
+            for sig, detail in fails:
+                R.violation(sig, {"kind": "host", "sig": sig, "case": list(case), "detail": detail, "got": got})
     else:
         paths = list(disp_paths(tier))
         tables = [t for k in range(len(MOUNTS) + 1) for t in itertools.combinations(MOUNTS, k)]
@@ -477,6 +685,8 @@ def run_unit(unit, R, tier):
             R.ev()
             R.count("disp_cases")
             fails, got = check_disp(mounts, path, script)
+            if any(0xDC80 <= ord(c) <= 0xDCFF for c in path):
+                R.use("disp:invalid-utf8-path")
             if got.get("app") is not None:
                 R.use("disp:mounted")
                 if got["PATH_INFO"]:
@@ -494,9 +704,9 @@ def run_unit(unit, R, tier):
 
 
 def finalize(R, tier):
-    need = {"iri:net", "iri:path", "iri:query", "iri:fragment", "iri:cross", "iri:userinfo", "iri:noscheme",
+    need = {"iri:net", "iri:path", "iri:query", "iri:fragment", "iri:cross", "iri:userinfo", "iri:noscheme", "iri:fusion",
             "iri:quoted-something", "iri:unquoted-something", "iri:kept-escape", "iri:normalised(u2!=u)",
-            "env:query", "env:noquery", "disp:mounted", "disp:default", "disp:several-mounts-match"}
+            "env:query", "env:noquery", "host:with-header", "host:from-server", "disp:mounted", "disp:default", "disp:several-mounts-match", "disp:invalid-utf8-path"}
     need |= {"env:base%d" % b for b in range(len(BASES))}
     missing = need - R.used
     if missing:
@@ -531,6 +741,9 @@ def replay(rec):
         q = None if q is None else tuple(tuple(p) for p in q)
         fails, got = check_env(rec["path"], q, rec["base"])
         text = f"EnvironBuilder(path={rec['path']!r}, query_string={q!r}, base_url={BASES[rec['base']][0]!r})\nrequest: {got}"
+    elif kind == "host":
+        fails, got = check_host(*rec["case"])
+        text = f"scheme, Host header, SERVER_NAME, SERVER_PORT = {tuple(rec['case'])!r}\n{got}"
     elif kind == "disp":
         fails, got = check_disp(tuple(rec["mounts"]), rec["path"], rec["script"])
         text = f"mounts={rec['mounts']} PATH_INFO={rec['path']!r} SCRIPT_NAME={rec['script']!r}\napp saw: {got}"
@@ -558,7 +771,67 @@ def _f_literal_percent(rec) -> bool:
     return meaning(rec["got"][attr])["path"] == canon(_q(root + given, safe="/%"), "/")
 
 
-FINDINGS: dict = {"C15-url-literal-percent-in-path": _f_literal_percent}
+def _f_wsgi_mojibake(rec) -> bool:
+    """werkzeug.wsgi.get_current_url(environ) hands the latin-1 tunnelled SCRIPT_NAME / PATH_INFO to quote()
+    without undoing the tunnelling.  Matches only the path component of the wsgi.get_current_url results, only when
+    root + path is not ASCII, and only when the observed path is exactly the double-encoded (mojibake) form."""
+    import re
+    from urllib.parse import quote as _q
+
+    m = re.fullmatch(r"env:(wsgi\[[a-z_+]+\]):path", rec.get("sig", ""))
+    if rec.get("kind") != "env" or m is None:
+        return False
+    label = m.group(1)
+    if "host_only" in label:
+        return False
+    root = BASES[rec["base"]][3]
+    text = root + ("/" if "root_only" in label else unquote(rec["path"]))
+    if text.isascii():
+        return False
+    moji = text.encode("utf-8").decode("latin-1")
+    return meaning(rec["got"][label])["path"] == canon(_q(moji, safe="/"), "/")
+
+
+def _f_from_environ(rec) -> bool:
+    """EnvironBuilder.from_environ passes the *decoded* PATH_INFO to a constructor that expects a URL path, so
+    '#', '?' and a literal '%XX' in it are read as URL syntax.  Matches only when the decoded path contains one of
+    these and only PATH_INFO differs (or the constructor refuses the '?')."""
+    import re
+
+    if rec.get("kind") != "env":
+        return False
+    given = unquote(rec["path"])
+    special = "#" in given or "?" in given or re.search(r"%[0-9A-Fa-f]{2}", given) is not None
+    if not special:
+        return False
+    if rec.get("sig") == "env:from_environ":
+        return set(rec["detail"]) == {"PATH_INFO"}
+    if rec.get("sig") == "env:from_environ:exception":
+        return "?" in given and "Query string is defined in the path" in str(rec["detail"])
+    return False
+
+
+def _f_escape_fusion(rec) -> bool:
+    """uri_to_iri: a dangling '%' (or '%' + one hex digit) directly followed by an escape that decodes to a hex
+    digit is completed to a new escape ('%a%41' -> '%aA').  Matches only inputs with that shape and only the
+    signatures this produces."""
+    import re
+
+    if rec.get("kind") != "iri":
+        return False
+    if re.search(r"%[0-9A-Fa-f]?%(3[0-9]|[46][1-6])", rec["x"]) is None:
+        return False
+    sig = rec.get("sig", "")
+    return sig == "iri:iri-not-fixpoint-after-one-step" or re.fullmatch(
+        r"iri:meaning-changed:(path|query|fragment|user|password):(iri|uri2|iri-direct)", sig) is not None
+
+
+FINDINGS: dict = {
+    "C15-uri-to-iri-completes-dangling-percent": _f_escape_fusion,
+    "C15-url-literal-percent-in-path": _f_literal_percent,
+    "C15-wsgi-get-current-url-mojibake": _f_wsgi_mojibake,
+    "C15-from-environ-reserved-path": _f_from_environ,
+}
 
 LEVEL_TEXT = (
     "Exhaustive enumeration of URL component strings up to 3-4 atoms over an alphabet built from the per-component "
